@@ -506,6 +506,8 @@ def rule_resize_keeps_cursor_line(ctx: Ctx) -> RuleResult:
     for want, meth in ((ast.Add, "insert"), (ast.Sub, "pop")):
         moves = nodes_where(cfg, lambda c, meth=meth: isinstance(c, ast.Call) and isinstance(c.func, ast.Attribute) and c.func.attr == meth and ast.unparse(c.func.value) == f"{fi.self_name}.term" and c.args and isinstance(c.args[0], ast.Constant) and c.args[0].value == 0)
         adj = [n for n in cfg.nodes if isinstance(n.ast, ast.AugAssign) and isinstance(n.ast.target, ast.Name) and n.ast.target.id == yname and isinstance(n.ast.op, want)]
+        # the spelled-out form `y = y + 1`
+        adj += [n for n in cfg.nodes if isinstance(n.ast, ast.Assign) and len(n.ast.targets) == 1 and isinstance(n.ast.targets[0], ast.Name) and n.ast.targets[0].id == yname and isinstance(n.ast.value, ast.BinOp) and isinstance(n.ast.value.op, want) and isinstance(n.ast.value.left, ast.Name) and n.ast.value.left.id == yname]
         for mv in moves:
             # from the move, every way on (to the next move, to the end) passes the adjustment
             ok = bool(adj) and not ({cfg.exit} | set(moves)) & (cfg.reachable([mv], avoid=adj, labels=("n", "T", "F")) - {mv})
@@ -1078,6 +1080,7 @@ from ..mutants import Mut  # noqa: E402
 
 _V = "urwid/vterm.py"
 MUTANTS = [
+    Mut("twin-resize-cursor-row-spelled-out", "urwid/vterm.py", "TermCanvas.resize", "                y += 1  # the cursor stays on its line\n", "                y = y + 1\n", twin=True),
     Mut("twin-decrc-deepcopy", "urwid/vterm.py", "TermCanvas.restore_cursor", "(copy.copy(self.saved_attrs[0]), copy.copy(self.saved_attrs[1]))", "(copy.copy(self.saved_attrs[0]), copy.deepcopy(self.saved_attrs[1]))", twin=True),
     Mut("resize-grow-leaves-cursor-row", "urwid/vterm.py", "TermCanvas.resize", "                y += 1  # the cursor stays on its line\n", "", "PAIR|vterm.TermCanvas.resize|resize: insert(0) without moving the cursor row"),
     Mut("resize-shrink-leaves-cursor-row", "urwid/vterm.py", "TermCanvas.resize", "                y -= 1  # the cursor stays on its line\n", "", "PAIR|vterm.TermCanvas.resize|resize: pop(0) without moving the cursor row"),
